@@ -290,6 +290,32 @@ def main(tier):
                                      "on_iterable": L.outcome_wire(got), "on_list": L.outcome_wire(want)}, None)
     chk.evaluations += it_cases
     chk.extra["one_shot_iterable_cases"] = it_cases
+    # ---- subclasses of the built-in containers: has_key_p on dict subclasses (Counter, defaultdict -- __missing__ never raises
+    # KeyError -- OrderedDict), and the caller's mapping must be left as it was
+    import collections
+
+    sub_cases = 0
+    for spec in A:
+        if spec[0] != "haskey":
+            continue
+        p = L.real(spec, rec)
+        k = spec[1]
+        try:
+            hash(k)
+        except TypeError:
+            continue
+        for mk in (lambda: collections.Counter({"a": 1}), lambda: collections.defaultdict(int, {"a": 1}), lambda: collections.defaultdict(list), lambda: collections.OrderedDict([("b", 2), (1, 1)]),
+                   lambda: collections.ChainMap({"a": 1}, {"b": 2}), lambda: type("D", (dict,), {"__missing__": lambda self, key: 0})({1: 1})):
+            d = mk()
+            before = dict(d)
+            want = ("ok", k in d)
+            got = L.run(p, d)
+            sub_cases += 1
+            if got != want or dict(d) != before:
+                chk.add_failure({"predicate": L.show(spec), "spec": repr(spec), "value": f"{type(d).__name__}({before!r})"},
+                                {"what": "has_key_p differs from `key in mapping` on a dict subclass (or changed the mapping)", "implementation": L.outcome_wire(got), "plain_python": L.outcome_wire(want), "mapping_after": repr(dict(d))}, None)
+    chk.evaluations += sub_cases
+    chk.extra["mapping_subclass_cases"] = sub_cases
 
     # PropertyPredicate: the wrapper calls the getter once with the object and returns its answer (model: an instrumented leaf)
     preqs, pexp = [], []
